@@ -5,7 +5,7 @@ func init() {
 		info: PropInfo{
 			Bounds: []string{
 				"extended-ID checks: zoom quadruples (h1,v1,h2,v2) over a sample (quick 40, thorough all with zooms in {0,1,2,10,25,26,35} and |difference| arbitrary); all indices symbolic, both signs for f; both argument orders and the reflexive call in one harness",
-				"array forms: 0..2 x 0..2 elements, mixed zooms inside a list in both orders (coarse first / fine first)",
+				"array forms: 0..2 x 0..2 elements; extended form with per-element zoom offsets on each axis chosen by five bit-mask pairs (equal, alternating, vertical-only, horizontal-only, crossed); tree form with mixed zooms inside a list in both orders",
 				"radix-tree checks: zoom pairs z1,z2 in 1..4 (quick) / 1..6 (thorough) with |z1-z2| <= 2, plus the sub-metre zooms 25..27 paired within +-1; the tree (multidimensional-radix-tree) is executed from its SSA, child tables indexed by symbolic branch paths use a hit/miss overlay model",
 			},
 			Outside: []string{"tree checks at zooms 7..24 and beyond 27 (depth-linear but each level adds solver work)", "lists longer than 2", "spatial IDs outside +-2^24 m (documented precondition)"},
@@ -35,10 +35,16 @@ func init() {
 						if ord == 1 && n1+n2 < 2 {
 							continue
 						}
-						in := mk("detector", "VerifC05ExtArray", cs("n1", n1, "n2", n2, "h", 3, "v", 2, "ord", ord))
-						in.Unwind = 40
-						is = append(is, in)
-						in = mk("detector", "VerifC05TreeArray", cs("n1", n1, "n2", n2, "z", 2, "ord", ord))
+						masks := [][2]int{{0b0101, 0b0101}, {0b1010, 0b1010}}
+						if ord == 1 {
+							masks = [][2]int{{0b0000, 0b0110}, {0b0110, 0b0000}, {0b0011, 0b0101}}
+						}
+						for _, mk2 := range masks {
+							in := mk("detector", "VerifC05ExtArray", cs("n1", n1, "n2", n2, "h", 3, "v", 2, "hm", mk2[0], "vm", mk2[1]))
+							in.Unwind = 40
+							is = append(is, in)
+						}
+						in := mk("detector", "VerifC05TreeArray", cs("n1", n1, "n2", n2, "z", 2, "ord", ord))
 						in.Unwind = 80
 						in.MaxSeconds = 1500
 						is = append(is, in)
